@@ -281,12 +281,18 @@ inductive Kind
     own `.name`.  `Mapping._reset`/`set` always store a field under its name, but a SparseDict
     item assignment can store an instance of a renamed subclass of the field schema under the
     field's key (KF-C10-a), so the two are kept apart: `find` looks up keys, `fq_name` prints
-    names.  For members of sequences and for the root the key is not used. -/
-inductive Node | mk (kind : Kind) (key : Str) (name : Str) (kids : List Node)
+    names.  For members of sequences and for the root the key is not used.
+
+    An UNNAMED child of a mapping (`Dict.of(Dict.of(...), ...)`: `name is None`) is stored under
+    the key `None`: `key = none`, and its `name` is `[]` here — since 05c4adc `_path_segment`
+    emits the empty step for a name `None`, exactly what it emits for a name `''`, so `fq_name`
+    cannot tell them apart; `find` can: an empty step looks up `None` (`key = none`), never the
+    key `''` (`key = some []`, KF-C13-b). -/
+inductive Node | mk (kind : Kind) (key : Option Str) (name : Str) (kids : List Node)
   deriving Repr, Inhabited
 
 def Node.kind : Node → Kind | .mk k _ _ _ => k
-def Node.key : Node → Str | .mk _ k _ _ => k
+def Node.key : Node → Option Str | .mk _ k _ _ => k
 def Node.name : Node → Str | .mk _ _ n _ => n
 def Node.kids : Node → List Node | .mk _ _ _ k => k
 
@@ -310,8 +316,9 @@ def kidsAt (root : Node) (el : Pos) : List Node :=
   | some n => n.kids
   | none => []
 
-/-- `dict.__getitem__` on the field mapping: position of the child stored under key `s` -/
-def findName (s : Str) : List Node → Option Nat
+/-- `dict.__getitem__` on the field mapping: position of the child stored under key `s`
+    (`none` = the key `None`, under which an unnamed field is stored) -/
+def findName (s : Option Str) : List Node → Option Nat
   | [] => none
   | k :: r => if k.key == s then some 0 else (findName s r).map (· + 1)
 
@@ -324,8 +331,7 @@ def pyListIndex (n : Nat) (i : Int) : Option Nat :=
 def Node.index (n : Node) (data : Option Str) : Option Nat :=
   match n.kind, data with
   | .scalar, _ => none                         -- `raise IndexError(name)`
-  | .map, some s => findName s n.kids          -- `self[name]`
-  | .map, none => none                         -- `self[None]` → KeyError
+  | .map, d => findName d n.kids               -- `self[name]`; `self[None]` finds an unnamed field or → KeyError
   | _, none => none                            -- `int(None)` → TypeError
   | _, some s =>
     match pyInt s with
@@ -586,7 +592,18 @@ def joinSlash : List Str → Str
   | [a] => a
   | a :: r => a ++ '/' :: joinSlash r
 
+/-- `parts and parts[-1] == ""`: the last step is empty (an unnamed element, or one named `''`) -/
+def lastEmpty (parts : List Str) : Bool :=
+  match parts.getLast? with
+  | some s => s.isEmpty
+  | none => false
+
+/-- `"/" + "/".join(parts)`, and one more slash when the last step is empty (a single trailing slash
+    is not a step; 05c4adc) -/
 def fqName (root : Node) (pos : Pos) : Str :=
-  if pos.isEmpty then ['/'] else '/' :: joinSlash (fqParts none (chain root pos))
+  if pos.isEmpty then ['/']
+  else
+    let parts := fqParts none (chain root pos)
+    '/' :: joinSlash parts ++ (if lastEmpty parts then ['/'] else [])
 
 end Flatland.Path
